@@ -2,7 +2,9 @@ CONSTANTS
   IterLimit = 3
   NodeLimit = 2
   MaxNodes = 4
+  TimeLimit = 2
+  MaxClock = 4
 SPECIFICATION SpecEqsat
-INVARIANTS TypeOK BoundedEqsat
+INVARIANTS TypeOK BoundedEqsat TruthEqsat MustStopEqsat
 PROPERTY Terminates
 CHECK_DEADLOCK FALSE
